@@ -95,6 +95,16 @@ fn kind_code(p: PositionDerivative) -> u8 {
         PositionDerivative::Acceleration => 3,
     }
 }
+/// A query at another instant whose low 32 bits (and low 16 bits) equal those of `t`, issued right
+/// before the query that is judged: the accessors are pure functions of (profile, t), so what was
+/// asked before must not matter - a one-entry memo with a lossy key does.
+pub fn decoy(mp: &MotionProfile, t: i64, k: usize) {
+    let d: i64 = [1i64 << 32, -(1i64 << 32), 3i64 << 32, 1i64 << 16][k % 4];
+    if let Some(x) = t.checked_add(d) {
+        let _ = mp.get_piece(Time(x));
+        let _ = mp.get_position(Time(x));
+    }
+}
 pub fn sample(mp: &MotionProfile, t: i64) -> At {
     let h = <MotionProfile as History<Command, E>>::get(mp, Time(t));
     At {
@@ -167,9 +177,10 @@ fn c06_profile(s: &Spec, mp: &MotionProfile, e: &mut Eng) {
     let (ek, ev) = end_command_expected(s);
     let times = query_times(ts);
     let mut prev_rank = 0u8;
-    for &t in &times {
+    for (qi, &t) in times.iter().enumerate() {
         e.checks += 1;
-        e.transitions += 6;
+        e.transitions += 8;
+        decoy(mp, t, qi);
         let a = sample(mp, t);
         let a2 = sample(mp, t);
         let fail = |e: &mut Eng, cls: &str, what: String| {
@@ -332,9 +343,10 @@ fn c07_profile(s: &Spec, mp: &MotionProfile, e: &mut Eng) {
     times.retain(|&t| t >= 0 && t < ts[2]);
     times.sort();
     times.dedup();
-    for &t in &times {
+    for (qi, &t) in times.iter().enumerate() {
         e.checks += 1;
-        e.transitions += 3;
+        e.transitions += 5;
+        decoy(mp, t, qi);
         let tt = sec(t);
         let (acc, vel, pos) = (q(mp.get_acceleration(Time(t))), q(mp.get_velocity(Time(t))), q(mp.get_position(Time(t))));
         let (acc, vel, pos) = match (acc, vel, pos) {
@@ -573,6 +585,9 @@ pub fn run(ctx: &Ctx, second: bool) -> Vec<Eng> {
         e.executions += 1;
         e.states += 1;
         e.transitions += 1;
+        // a sibling call first: the same move translated by +256 mm (same stroke and speeds where the
+        // positions are small integers) - the constructor is a pure function of its arguments
+        let _ = guard(|| Spec { p0: s.p0 + 256.0, p1: s.p1 + 256.0, ..*s }.build());
         let r = guard(|| s.build());
         match &r {
             Err(m) => {
